@@ -49,8 +49,11 @@ def run(ctx, rep):
         if isinstance(st, ast.Assign) and len(st.targets) == 1 and isinstance(st.targets[0], ast.Name) and st.targets[0].id not in grown:
             body_defs[st.targets[0].id] = st.value
     defs.update(body_defs)
+    # the sequence of estimates by role: the first argument of the result object, whatever it is called
+    res0 = [n for n in own_nodes(f.node) if isinstance(n, ast.Call) and unparse(n.func) == "LinearEstimationResult"]
+    seq_name = unparse(res0[0].args[0]) if len(res0) == 1 and res0[0].args and isinstance(res0[0].args[0], ast.Name) else "estimate_sequence"
     appended = [n for n in ast.walk(loop) if isinstance(n, ast.Call) and isinstance(n.func, ast.Attribute) and n.func.attr == "append"
-                and unparse(n.func.value) == "estimate_sequence"]
+                and unparse(n.func.value) == seq_name]
     if len(appended) != 1:
         rep.undecided("L1", f, "append", "expected one estimate_sequence.append(...)")
         return
@@ -149,7 +152,7 @@ def run(ctx, rep):
               "estimated_var = element 0", "estimated_var is not element 0 of the stored sequence", node=r[0] if r else None)
     # the estimator hands its own sequence and the tomography's template to the result
     res_calls = [n for n in own_nodes(f.node) if isinstance(n, ast.Call) and unparse(n.func) == "LinearEstimationResult"]
-    ok = len(res_calls) == 1 and len(res_calls[0].args) >= 3 and unparse(res_calls[0].args[0]) == "estimate_sequence" \
+    ok = len(res_calls) == 1 and len(res_calls[0].args) >= 3 and unparse(res_calls[0].args[0]) == seq_name \
         and unparse(res_calls[0].args[2]) == "qtomography._template_qoperation"
     rep.check(ok, "L5", f, res_calls[0] if res_calls else "result", "result(estimate_sequence, times, qtomography._template_qoperation)",
               "the result is not built from the estimates and the tomography's template", node=res_calls[0] if res_calls else f.node)
